@@ -26,6 +26,7 @@ class Engine:
         self.mode = mode
         self.contracts = {}        # qualname -> Contract  (exact function)
         self.virtual = {}          # method name -> Contract (receiver of unknown class)
+        self.virtual_attrs = {}    # attribute name -> fn(eng, st, obj) for data attributes / properties of unknown nodes
         self.no_contract = set()   # qualnames whose contract is disabled (the function being verified)
         self.intr = None           # builtins_spec.Intrinsics, set by caller
         self.used_contracts = set()
